@@ -95,6 +95,15 @@ def run_history(h, history, check_every=True):
     return w
 
 
+def _guard_cloned(fn, w, history):
+    try:
+        _guard(fn, w)
+    except Violation as v:
+        if CLONE in history:
+            raise Violation('[deep copy of the model] ' + v.msg, v.expected, v.observed, v.known)
+        raise
+
+
 def replay_case(h, case):
     """Replay a case written by explore(): optionally an earlier execution first (state-leak cases)."""
     if case.get('after') is not None:
@@ -102,6 +111,10 @@ def replay_case(h, case):
             run_history(h, case['after'], check_every=False)
         except Violation:
             pass
+    # exactly as explored: the prefix is applied without the per-state checks (they read, and reads can fill caches),
+    # the check runs in the final state only; if that passes, the history is also run with a check after every step
+    w = run_history(h, case['history'], check_every=False)
+    _guard_cloned(h.check, w, case['history'])
     return run_history(h, case['history'])
 
 
